@@ -5,7 +5,7 @@ import os
 from . import common as c
 
 
-def expand(programs, tag):
+def expand(programs, tag, level="full"):
     """programs: list of (id, macro, attr_text, source_text). Returns {id: facts}."""
     os.makedirs(c.CACHE, exist_ok=True)
     inp = os.path.join(c.CACHE, "l1_%s_in.txt" % tag)
@@ -16,7 +16,7 @@ def expand(programs, tag):
             f.write("@@ %s %s\n%s\n%s\n" % (pid, macro, attr, src))
     if os.path.exists(outp):
         os.remove(outp)
-    c.run_hook("expand", inp, outp)
+    c.run_hook("expand", inp, outp, extra_env={"VERIF_HOOK_LEVEL": level})
     res = {}
     for line in open(outp):
         if line.strip():
